@@ -93,6 +93,9 @@ pub trait FloatTy:
 }
 impl FloatTy for f32 {
     fn bits_hex(self) -> String {
+        if self.is_nan() {
+            return "nan".to_string();
+        }
         format!("{:x}", self.to_bits())
     }
     fn from_bits_hex(s: &str) -> Self {
@@ -101,6 +104,9 @@ impl FloatTy for f32 {
 }
 impl FloatTy for f64 {
     fn bits_hex(self) -> String {
+        if self.is_nan() {
+            return "nan".to_string();
+        }
         format!("{:x}", self.to_bits())
     }
     fn from_bits_hex(s: &str) -> Self {
